@@ -25,6 +25,7 @@ Msgs == [addrs : UNION {[1..n -> AddrClasses] : n \in 0..MaxAddrs}, extra : Extr
 
 (* tokens: [t |-> type, n |-> count or size class / payload class] *)
 Arr(n) == [t |-> "arr", n |-> n, c |-> ""]
+ArrFull(n) == [t |-> "arr", n |-> n, c |-> "full"]     \* an array header of n followed by n empty byte strings, as one token
 CidTok == [t |-> "cid", n |-> 0, c |-> ""]
 Bytes(c) == [t |-> "bytes", n |-> 0, c |-> c]          \* c: "ok" "unk" "empty" (addresses) | "none" "small" "atcap" (extra) | "overcap"
 Text(c) == [t |-> "text", n |-> 0, c |-> c]            \* c: "peer" | "overcap"
@@ -46,7 +47,8 @@ Decode(ts) ==
   IF Len(ts) < 1 \/ ts[1].t # "arr" \/ ts[1].n > 4 \/ ts[1].n < 3 THEN Err
   ELSE IF Len(ts) < 2 \/ ts[2].t # "cid" THEN Err
   ELSE IF Len(ts) < 3 \/ ts[3].t # "arr" \/ ts[3].n > 8192 THEN Err
-  ELSE LET a == ReadAddrs(ts, 4, ts[3].n, <<>>) IN
+  ELSE LET a == IF ts[3].c = "full" THEN [ok |-> TRUE, next |-> 4, addrs |-> [i \in 1..ts[3].n |-> "empty"]]
+                ELSE ReadAddrs(ts, 4, ts[3].n, <<>>) IN
        IF ~a.ok THEN Err
        ELSE IF a.next > Len(ts) \/ ts[a.next].t # "bytes" \/ ts[a.next].c \notin Extras THEN Err
        ELSE IF ts[1].n = 3 THEN [ok |-> TRUE, m |-> [addrs |-> a.addrs, extra |-> ts[a.next].c, orig |-> FALSE], alloc |-> 0]
@@ -57,13 +59,20 @@ Decode(ts) ==
 VARIABLES m, mut, stage
 vars == <<m, mut, stage>>
 Muts(ts) == {[k |-> "none", i |-> 0]} \cup {[k |-> "count", i |-> n] : n \in {0, 1, 2, 5}} \cup
-            {[k |-> x, i |-> j] : x \in {"wrongtype", "overcap", "truncate"}, j \in 1..Len(ts)} \cup {[k |-> "trailing", i |-> 0]}
+            {[k |-> x, i |-> j] : x \in {"wrongtype", "overcap", "truncate"}, j \in 1..Len(ts)} \cup {[k |-> "trailing", i |-> 0]} \cup
+            \* array headers that announce far more than the cap (the cap of the byte strings, 2 MiB, read as an element count)
+            {[k |-> "hugecount", i |-> j] : j \in {1, 3}} \cup
+            \* an address array with every element present: one more than the cap, and exactly the cap
+            (IF ts[3].n = 0 THEN {[k |-> "fullover", i |-> 3], [k |-> "fullat", i |-> 3]} ELSE {})
 Apply(ts, u) ==
   CASE u.k = "none" -> ts
     [] u.k = "count" -> <<Arr(u.i)>> \o Tail(ts)
     [] u.k = "wrongtype" -> [ts EXCEPT ![u.i] = IF ts[u.i].t = "int" THEN CidTok ELSE Other]
     [] u.k = "overcap" -> [ts EXCEPT ![u.i] = CASE ts[u.i].t = "arr" -> Arr(8193) [] ts[u.i].t = "bytes" -> Bytes("overcap")
                                                   [] ts[u.i].t = "text" -> Text("overcap") [] OTHER -> Other]
+    [] u.k = "hugecount" -> [ts EXCEPT ![u.i] = Arr(2097152)]
+    [] u.k = "fullover" -> [ts EXCEPT ![3] = ArrFull(8193)]
+    [] u.k = "fullat" -> [ts EXCEPT ![3] = ArrFull(8192)]
     [] u.k = "truncate" -> SubSeq(ts, 1, u.i - 1)
     [] u.k = "trailing" -> ts \o <<Other, Bytes("small")>>
 
@@ -77,10 +86,12 @@ Result == Decode(Input)
 
 RoundTrip == (Complete /\ mut.k = "none") => (Result.ok /\ Result.m = m)
 (* whatever decodes re-encodes to a message that decodes to itself *)
-Stable == (Complete /\ Result.ok) => Decode(Encode(Result.m)) = [ok |-> TRUE, m |-> Result.m, alloc |-> 0]
+Stable == (Complete /\ Result.ok /\ mut.k # "fullat") => Decode(Encode(Result.m)) = [ok |-> TRUE, m |-> Result.m, alloc |-> 0]
 (* no valid encoding is a strict prefix of another: every truncation is rejected *)
 NoPrefix == (Complete /\ mut.k = "truncate") => ~Result.ok
-CapsEnforced == (Complete /\ mut.k = "overcap") => ~Result.ok
+CapsEnforced == (Complete /\ mut.k \in {"overcap", "hugecount", "fullover"}) => ~Result.ok
+(* a message at the cap of the address list is still decoded (and is what the encoder accepts) *)
+AtCapAccepted == (Complete /\ mut.k = "fullat") => (Result.ok /\ Len(Result.m.addrs) = 8192 /\ Result.m.extra = m.extra /\ Result.m.orig = m.orig)
 WrongTypeRejected == (Complete /\ mut.k = "wrongtype") => ~Result.ok
 CountEnforced == (Complete /\ mut.k = "count") => ~Result.ok
 (* the outer array of 3 with a fourth field appended is not read as original peer, and vice versa *)
